@@ -17,32 +17,78 @@ import z3
 from . import core
 
 S = z3.DeclareSort("RngState")
-STATE0 = z3.Const("rng_state0", S)
-NEXT = z3.Function("rng_next", S, S)
-SEEDED = z3.Function("rng_seeded", z3.IntSort(), S)
-ENTROPY = z3.Const("rng_os_entropy", S)
+SB = z3.DeclareSort("RngBits")  # Mersenne-Twister key + position (what the bit generator's `state` holds)
+SG = z3.DeclareSort("RngGauss")  # the legacy generator's cached Gaussian (has_gauss, cached_gaussian)
+PAIR = z3.Function("rng_state", SB, SG, S)
+B0 = z3.Const("rng_bits0", SB)
+G0 = z3.Const("rng_gauss0", SG)
+STATE0 = PAIR(B0, G0)
+NEXT = z3.Function("rng_next", SB, SB)
+SEEDED_B = z3.Function("rng_seeded", z3.IntSort(), SB)
+GCLEAR = z3.Const("rng_gauss_cleared", SG)
+GNEXT = z3.Function("rng_gauss_next", SG, SB, SG)
+ENTROPY = z3.Const("rng_os_entropy", SB)
+
+
+def SEEDED(t):
+    """Full state right after seed(t): seeded bits, Gaussian cache cleared."""
+    return PAIR(SEEDED_B(t), GCLEAR)
+
 
 _DRAWS = [n for n in dir(np.random.mtrand._rand) if not n.startswith("_") and callable(getattr(np.random.mtrand._rand, n))
           and n not in ("seed", "get_state", "set_state")]
+# draws that go through the legacy Gaussian (and therefore read / write its one-value cache)
+GAUSS_FAMILY = {"normal", "randn", "standard_normal", "lognormal", "multivariate_normal", "standard_cauchy", "standard_t", "chisquare", "noncentral_chisquare",
+                "f", "noncentral_f", "wald", "gamma", "standard_gamma", "beta", "dirichlet", "vonmises", "negative_binomial", "power", "pareto", "weibull"}
 
 
 class _Token(tuple):
-    """What get_state() returns: carries the state term."""
+    """What get_state() returns: carries the state terms."""
 
     term = None
 
 
+class _BitGenerator:
+    """np.random.get_bit_generator(): its `state` is the Mersenne-Twister part only."""
+
+    def __init__(self, model):
+        self._m = model
+
+    @property
+    def state(self):
+        tok = _BitState({"bit_generator": "MT19937"})
+        tok.bits = self._m.B
+        self._m.events.append(("bit_generator.state read", self._m.B))
+        return tok
+
+    @state.setter
+    def state(self, value):
+        bits = getattr(value, "bits", None)
+        if bits is None:
+            raise core.Unsupported("bit_generator.state set to a value not read from it")
+        self._m.events.append(("bit_generator.state written", bits))
+        self._m.B = bits
+
+
+class _BitState(dict):
+    bits = None
+
+
 class RngModel:
     def __init__(self):
-        self.state = STATE0
-        self.draws: list = []  # (function name, state term before the draw)
+        self.B, self.G = B0, G0
+        self.draws: list = []  # (function name, full state term before the draw)
         self.seeds: list = []  # terms passed to seed()
         self.events: list = []
+
+    @property
+    def state(self):
+        return PAIR(self.B, self.G)
 
     # -- global-state API
     def get_state(self, legacy=True):
         tok = _Token(("MT19937", self.state))
-        tok.term = self.state
+        tok.term = (self.B, self.G)
         self.events.append(("get_state", self.state))
         return tok
 
@@ -50,20 +96,27 @@ class RngModel:
         term = getattr(state, "term", None)
         if term is None:
             raise core.Unsupported("np.random.set_state with a state not obtained from get_state()")
-        self.events.append(("set_state", term))
-        self.state = term
+        self.events.append(("set_state", PAIR(*term)))
+        self.B, self.G = term
 
     def seed(self, seed=None):
         if seed is None:
-            self.state = ENTROPY
+            self.B = ENTROPY
             self.seeds.append(None)
         else:
             t = core.to_term(seed)
             if t is None:
                 t = (z3.IntVal(int(np.asarray(seed).ravel()[0])), "int")
-            self.state = SEEDED(t[0])
+            self.B = SEEDED_B(t[0])
             self.seeds.append(t[0])
+        self.G = GCLEAR
         self.events.append(("seed", self.state))
+
+    def _advance(self, name):
+        b = self.B
+        self.B = NEXT(b)
+        if name in GAUSS_FAMILY:
+            self.G = GNEXT(self.G, b)
 
     def _draw(self, name):
         def f(*a, **k):
@@ -72,7 +125,7 @@ class RngModel:
             self.draws.append((name, self.state))
             key = int(hashlib.sha256(z3.simplify(self.state).sexpr().encode()).hexdigest()[:8], 16)
             priv = np.random.RandomState(key)
-            self.state = NEXT(self.state)
+            self._advance(name)
             return getattr(priv, name)(*a, **k)
 
         f.__name__ = name
@@ -85,22 +138,35 @@ class RngModel:
         patch.attr(npr, "seed", self.seed, "RNG model")
         patch.attr(npr, "get_state", self.get_state, "RNG model")
         patch.attr(npr, "set_state", self.set_state, "RNG model")
+        if hasattr(npr, "get_bit_generator"):
+            bg = _BitGenerator(self)
+            patch.attr(npr, "get_bit_generator", lambda: bg, "RNG model")
         for n in _DRAWS:
             if hasattr(npr, n):
                 patch.attr(npr, n, self._draw(n))
-        patch.log.append("numpy.random global-state functions -> vx.rngmodel (uninterpreted state machine)")
+        patch.log.append("numpy.random global-state functions -> vx.rngmodel (uninterpreted state machine: MT bits + Gaussian cache)")
         return self
 
     # -- queries
     def depends_on_initial_state(self, term):
         """Does the term mention the initial (arbitrary) generator state?"""
-        fresh = z3.Const("rng_state0_other", S)
-        return not z3.simplify(z3.substitute(term, (STATE0, fresh))).eq(z3.simplify(term))
+        fb, fg = z3.Const("rng_bits0_other", SB), z3.Const("rng_gauss0_other", SG)
+        return not z3.simplify(z3.substitute(term, (B0, fb), (G0, fg))).eq(z3.simplify(term))
 
-    def nexts(self, term, k):
-        for _ in range(k):
-            term = NEXT(term)
-        return term
+    @staticmethod
+    def after(start, names):
+        """State reached from `start` (a PAIR term or (B, G)) by the given sequence of draw names."""
+        m = RngModel()
+        if isinstance(start, tuple):
+            m.B, m.G = start
+        else:
+            m.B, m.G = start.arg(0), start.arg(1)
+        for n in names:
+            m._advance(n)
+        return m.state
+
+    def nexts(self, term, k, name="random"):
+        return RngModel.after(term, [name] * k)
 
 
 _CURRENT = None
